@@ -330,6 +330,8 @@ def _build(a):
     """A sequence-valued argument. `prep` makes it a *used* object (stale leftovers, regenerated views) instead of a
     pristine one; with `clean` the caller gets a clone that carries only the fresh views - the value is the same, so an
     operation must treat both alike (the clean twin is given the clean one)."""
+    if "_live" in a:
+        return a["_live"]      # another subject of the run, handed over as it is (resolved by the world, never stored in a trace)
     q = music.build_sequence(a["spec"], a["mode"])
     prep = a.get("prep")
     if prep:
